@@ -248,15 +248,21 @@ def _hx(v):
 # ---------------------------------------------------------------------------------------------
 # planning
 
+QUICK_FUNCS = ["arith_store", "arr_loop", "switch4", "subword", "muldiv", "nested"]
+
+
 def plan_units(tier):
     """Deterministic stratum: list of unit descriptors, identical at every seed."""
     units = []
-    ngen = 30 if tier == "thorough" else 7
+    ngen = 12 if tier == "thorough" else 1
     opts = ["-O0", "-O1", "-O2", "-Os"] if tier == "thorough" else ["-O1"]
     for arch in ARCHS_C:
-        nf = len(ccorpus.fixed_functions(arch)) + ngen
+        fixed = ccorpus.fixed_functions(arch)
+        nf = len(fixed) + ngen
         for opt in opts:
             for k in range(nf):
+                if tier != "thorough" and k < len(fixed) and fixed[k][0] not in QUICK_FUNCS:
+                    continue        # quick tier: 5-6 of the fixed functions (each translated block costs a C compile)
                 units.append(("c", arch, opt, k))
     for arch in ARCHS_T:
         n = len(jitlab.X86_16_TEMPLATES) if arch == "x86_16" else len(jitlab.MEP_TEMPLATES)
@@ -272,8 +278,8 @@ def det_functions(arch, ngen):
 class C20(Check):
     pid = "C20"
     needs_build = True
-    rule = ("programs = clang-compiled C functions (13 fixed + generated; x86_32/64, arml, armtl, aarch64l, "
-            "mips32l/b, ppc32b, msp430; -O1 quick, -O0/-O1/-O2/-Os thorough) and hand-written templates (x86_16, "
+    rule = ("programs = clang-compiled C functions (quick: 6 fixed + 1 generated per architecture at -O1; thorough: "
+            "13 fixed + 12 generated at -O0/-O1/-O2/-Os; x86_32/64, arml, armtl, aarch64l, mips32l/b, ppc32b, msp430) and hand-written templates (x86_16, "
             "mepl, mepb), each run on the python and gcc jitters under memory maps rw (2-3 input vectors), missing, "
             "read-only, split, split-ro, split-missing (+ro-split, split-aligned thorough) and once with two extra "
             "breakpoints on executed instructions; deterministic stratum identical at every seed plus a seeded "
@@ -373,7 +379,7 @@ class C20(Check):
         maps = MAPS_THOROUGH if tier == "thorough" else MAPS_QUICK
         units, ngen = plan_units(tier)
         mine = [u for i, u in enumerate(units) if i % nshards == shard]
-        nrand = 12 if tier == "thorough" else 3
+        nrand = 6 if tier == "thorough" else 1
         rng = random.Random(seed)
         with jitlab.JitLab(time_limit=600 if tier == "thorough" else 300) as lab:
             wd = lab.workdir()
